@@ -8,7 +8,7 @@
    everything else leave it alone.  All theorems quantify over ALL operation lists, all
    sizes with 1 <= headroom <= size (64 KiB / 32 KiB included), all source lengths and all
    short-read behaviours of the source. *)
-From Coq Require Import List Bool NArith Lia.
+From Coq Require Import List Bool NArith ZArith Lia.
 From PV Require Import Common.Cases C17.Model C17.Spec C17.ProofsData C17.ProofsBuf C17.ProofsWrap C17.ProofsIce.
 Import ListNotations.
 Local Open Scope N_scope.
@@ -25,7 +25,7 @@ Theorem C17_buffer_fidelity : forall size head prot b ops cur len,
   let tr := trace KBuf ops (mkw b cur len) in
   let b' := w_buf (run_state KBuf ops (mkw b cur len)) in
   buf_spec [] 0 tr /\
-  b_pos b' = spec_cursor 0 tr /\
+  b_pos b' = spec_cursor 0 0 tr /\
   bytes_of (unread b') = nskip (b_pos b') (spec_stream [] tr) /\
   b_pos b' <= N.of_nat (length (spec_stream [] tr)).
 Proof.
@@ -52,13 +52,14 @@ Theorem C17_buffer_invariant_step : forall acc b o cur len,
   | _, _ => binv acc (w_buf w')
   end.
 Proof.
-  intros acc b o cur len Hb Ho. destruct o as [d|n|n|p st|v|n cap]; cbn [step w_buf with_buf].
+  intros acc b o cur len Hb Ho. destruct o as [d|n|n|p st|z wh|v|n cap]; cbn [step w_buf with_buf].
   - pose proof (add_spec acc d b Hb) as S. destruct (buf_add d b) as [k b']. cbn [w_buf with_buf]. tauto.
   - pose proof (get_spec acc n b Hb) as S. destruct (buf_get n b) as [d b']. cbn [w_buf with_buf]. tauto.
   - exact Hb.
   - simpl in Ho. subst st. destruct (buf_seek p b) as [[|] b'] eqn:E; cbn [w_buf with_buf].
     + destruct (seek_true _ _ _ _ Hb E) as (_ & Hb' & _). exact Hb'.
     + apply seek_false in E. now subst b'.
+  - simpl in Ho. destruct Ho as [Hneg ->]. cbn [N.eqb]. rewrite (buf_seek_z_neg z b Hneg). exact Hb.
   - destruct (buf_protect v b) as [b'|] eqn:E; cbn [w_buf with_buf].
     + destruct (protect_spec _ _ _ _ Hb E) as (Hb' & _). exact Hb'.
     + exact Hb.
@@ -85,6 +86,21 @@ Theorem C17_seek_false_noop : forall p b b', buf_seek p b = (false, b') -> b' = 
 Proof. exact seek_false. Qed.
 Print Assumptions C17_seek_false_noop.
 
+(* seek() with ANY integer: a negative position is refused and nothing changes (205aad4); a
+   non-negative one is the seek above.  Together with OSeek/OSeekX in the history theorems this
+   covers every integer offset and the three whence values START, CURRENT, END on every
+   wrapper: the only seeks that ever report success are START seeks to an offset >= 0 that the
+   buffer honours and relative seeks that ask for the offset the stream is already at. *)
+Theorem C17_seek_any_integer : forall p b,
+  ((p < 0)%Z -> buf_seek_z p b = (false, b)) /\
+  ((0 <= p)%Z -> buf_seek_z p b = buf_seek (Z.to_N p) b).
+Proof.
+  intros p b. split; intro H.
+  - exact (buf_seek_z_neg p b H).
+  - unfold buf_seek_z. replace (p <? 0)%Z with false by (symmetry; apply Z.ltb_ge; exact H). reflexivity.
+Qed.
+Print Assumptions C17_seek_any_integer.
+
 (* The N model never truncates a subtraction that Python performs on ints. *)
 Theorem C17_model_no_truncation : forall acc b,
   binv acc b ->
@@ -102,7 +118,7 @@ Theorem C17_bufferedio_fidelity : forall size head prot len w ops,
   1 <= head -> init size head prot len = Some w -> Forall (applicable KBio) ops ->
   let tr := trace KBio ops w in
   let w' := run_state KBio ops w in
-  let c := spec_cursor 0 tr in
+  let c := spec_cursor len 0 tr in
   wrap_spec len 0 tr /\
   b_pos (w_buf w') = c /\
   bytes_of (unread (w_buf w')) = nseq c (w_cur w' - c) /\ c <= w_cur w' /\ w_cur w' <= len.
@@ -122,7 +138,7 @@ Theorem C17_streamable_io_fidelity : forall size head prot len w ops,
   1 <= head -> init size head prot len = Some w -> Forall (applicable KSio) ops ->
   let tr := trace KSio ops w in
   let w' := run_state KSio ops w in
-  let c := spec_cursor 0 tr in
+  let c := spec_cursor len 0 tr in
   wrap_spec len 0 tr /\
   bytes_of (unread (w_buf w')) = nseq c (w_cur w' - c) /\ c <= w_cur w' /\ w_cur w' <= len.
 Proof.
@@ -156,14 +172,14 @@ Theorem C17_streamreader_fidelity : forall size head prot len w ops,
   seeks_in_sync KSrw ops w ->
   let tr := trace KSrw ops w in
   let w' := run_state KSrw ops w in
-  let c := spec_cursor 0 tr in
+  let c := spec_cursor len 0 tr in
   wrap_spec len 0 tr /\
   bytes_of (unread (w_buf w')) = nseq c (w_cur w' - c) /\ c <= w_cur w' /\ w_cur w' <= len.
 Proof.
   intros size head prot len w ops H1 Hi Hap Hsync. cbv zeta.
   destruct (sinv_init _ _ _ _ _ H1 Hi) as (Hs & _ & Hl).
   apply chain_sync in Hsync.
-  destruct (histories KSrw sinv sync_cond srw_step_ok ops 0 w Hs Hap Hsync) as (T1 & T2 & T3).
+  destruct (histories KSrw sinv (sync_cond KSrw) srw_step_ok ops 0 w Hs Hap Hsync) as (T1 & T2 & T3).
   rewrite Hl in *. split; [exact T1|]. destruct (sinv_unread _ _ T2) as (U1 & U2 & U3).
   rewrite T3 in U3. auto.
 Qed.
@@ -202,14 +218,14 @@ Theorem C17_streamable_source_fidelity : forall size head prot len w ops,
   seeks_in_sync KSsw ops w ->
   let tr := trace KSsw ops w in
   let w' := run_state KSsw ops w in
-  let c := spec_cursor 0 tr in
+  let c := spec_cursor len 0 tr in
   wrap_spec len 0 tr /\
   bytes_of (unread (w_buf w')) = nseq c (w_cur w' - c) /\ c <= w_cur w' /\ w_cur w' <= len.
 Proof.
   intros size head prot len w ops H1 Hi Hap Hsync. cbv zeta.
   destruct (sinv_init _ _ _ _ _ H1 Hi) as (Hs & _ & Hl).
   apply chain_sync in Hsync.
-  destruct (histories KSsw sinv sync_cond ssw_step_ok ops 0 w Hs Hap Hsync) as (T1 & T2 & T3).
+  destruct (histories KSsw sinv (sync_cond KSsw) ssw_step_ok ops 0 w Hs Hap Hsync) as (T1 & T2 & T3).
   rewrite Hl in *. split; [exact T1|]. destruct (sinv_unread _ _ T2) as (U1 & U2 & U3).
   rewrite T3 in U3. auto.
 Qed.
@@ -231,7 +247,7 @@ Theorem C17_icecast_fidelity : forall block size head prot len w ops,
   1 <= head -> init size head prot len = Some w -> chunks_within block ops ->
   let tr := ice_trace block ops w in
   let w' := ice_state block ops w in
-  let c := spec_cursor 0 tr in
+  let c := spec_cursor len 0 tr in
   wrap_spec len 0 tr /\
   b_pos (w_buf w') = c /\
   bytes_of (unread (w_buf w')) = nseq c (w_cur w' - c) /\ c <= w_cur w'.
@@ -275,7 +291,7 @@ Theorem C17_icecast_plain_body_fidelity : forall block size head prot audio caps
   let s0 := mki b [(0, audio)] caps 0 false false in
   let tr := ice2_trace block 0 ops s0 in
   let s' := ice2_state block 0 ops s0 in
-  let c := spec_cursor 0 tr in
+  let c := spec_cursor audio 0 tr in
   wrap_spec audio 0 tr /\
   b_pos (i_buf s') = c /\
   bytes_of (unread (i_buf s')) = nseq c (i_taken s' - c) /\ c <= i_taken s' /\
@@ -328,7 +344,7 @@ Theorem C17_icecast_icy_exact_fidelity : forall block m size head prot ls b ops,
   let s0 := mki b (icy_body m 0 ls) [] 0 false false in
   let tr := ice2_trace block m ops s0 in
   let s' := ice2_state block m ops s0 in
-  let c := spec_cursor 0 tr in
+  let c := spec_cursor total 0 tr in
   wrap_spec total 0 tr /\
   b_pos (i_buf s') = c /\
   exists a ls',
@@ -474,3 +490,17 @@ Qed.
 
 Example C17_ex_binv : binv [7; 8; 9; 10] (mkbuf [(9, 2)] 8 2 2 false false).
 Proof. unfold binv; simpl. repeat split; try lia; reflexivity. Qed.
+
+(* seeks with negative offsets and CURRENT/END origins in a history that meets the side conditions *)
+Example C17_ex_whence :
+  exists w, init 8 4 true 32 = Some w /\
+  let ops := [ORead (Some 4) None; OSeekX (-10) 1; OSeekX (-3) 0; OSeekX (-1) 2; OSeek 1 true; ORead (Some 2) None] in
+  Forall (applicable KSsw) ops /\ seeks_in_sync KSsw ops w /\
+  map snd (trace KSsw ops w) = [RData [(0, 4)]; RNum 4; RNum 4; RNum 4; RNum 1; RData [(1, 2)]].
+Proof.
+  eexists. split; [reflexivity|]. cbv zeta. split.
+  - apply Forall_cons; [exact I|]. apply Forall_cons; [left; discriminate|].
+    apply Forall_cons; [right; reflexivity|]. apply Forall_cons; [left; discriminate|].
+    apply Forall_cons; [exact I|]. apply Forall_cons; [exact I|]. constructor.
+  - split; [vm_compute; repeat split; try reflexivity; intros _; reflexivity | vm_compute; reflexivity].
+Qed.
